@@ -95,8 +95,24 @@ def check_model(rep, drv, gen, rng, m, text, c):
                 failing = (f"{fname} on a batch of {N} columns returns shape {out.shape}, expected {want.shape}",
                            {"kind": "direct", "text": text, "function": fname, "columns": N, "variant": variant, "shape": str(shape)})
                 break
+            # magnitude of the intermediates of each column: sin / cos / Mod of a value of size M turn a one-ulp
+            # difference between numpy's vector and scalar kernels into an absolute difference of about M*2^-52
+            mags = []
+            for j in range(N):
+                pj = p_b if variant == "shared" else P[:, j].copy()
+                tj = t_b if variant == "shared" else float(Tt[j])
+                with np.errstate(all="ignore"):
+                    try:
+                        mon = np.array(ns["monitor_values"](**{a_: {"states": S[:, j].copy(), "t": tj, "parameters": pj, "dt": dt}[a_]
+                                                               for a_ in fns["monitor_values"]["args"]}), dtype=float)
+                        mon = mon[np.isfinite(mon)]
+                        mags.append(max([1.0] + [abs(float(v)) for v in mon] + [abs(float(v)) for v in S[:, j]]))
+                    except Exception:  # noqa: BLE001
+                        mags.append(1.0)
+            mag = np.array(mags, dtype=float)
             with np.errstate(all="ignore"):
-                same = (out == want) | (np.isnan(out) & np.isnan(want)) | (np.abs(out - want) <= 1e-12 * (np.abs(out) + np.abs(want)))
+                same = ((out == want) | (np.isnan(out) & np.isnan(want)) | (np.abs(out - want) <= 1e-12 * (np.abs(out) + np.abs(want)))
+                        | (np.abs(out - want) <= 1e-14 * mag))
             if not bool(np.all(same)):
                 j = int(np.argwhere(~same)[0][-1])
                 failing = (f"{fname}: column {j} of the batch result differs from the call on column {j} alone",
